@@ -4,7 +4,7 @@
 // them that is neither under contract nor pinned by name still makes this unit undecided, which sends the check to the
 // property's bounded sweep of the real code
 //@pinfile file=lrtable/src/lib/statetable.rs sha=d87829631c7b15fa
-//@pinfile file=cfgrammar/src/lib/yacc/grammar.rs sha=3ccc24d5c8f4f7f7
-//@pinfile file=cfgrammar/src/lib/yacc/parser.rs sha=7924a7910fafba2c
+//@pinfile file=cfgrammar/src/lib/yacc/grammar.rs sha=b2daa9fc80630f0d
+//@pinfile file=cfgrammar/src/lib/yacc/parser.rs sha=6ef477d7cbbde140
 //@pinfile file=lrpar/src/lib/ctbuilder.rs sha=63360841de4f2b64
 //@use prelude/tail.rs
